@@ -221,7 +221,19 @@ impl<L: Language> NthChild<L> {
         .children()
         .filter(|n| n.is_named())
         // keep the child itself: a relational rule returns the related node, not the child
-        .filter(|child| rule.match_node_with_env(child.clone(), env).is_some())
+        .filter(|child| {
+          if child.node_id() == node.node_id() {
+            // the inspected node: its bindings are part of the match
+            rule.match_node_with_env(child.clone(), env).is_some()
+          } else {
+            // other siblings are only counted: what they bind must not constrain
+            // the next sibling nor leak into the result
+            let mut scratch = Cow::Borrowed(env.as_ref());
+            rule
+              .match_node_with_env(child.clone(), &mut scratch)
+              .is_some()
+          }
+        })
         .collect()
     } else {
       parent.children().filter(|n| n.is_named()).collect()
